@@ -878,9 +878,120 @@ fn unit_scale(acc: &mut Acc, family: usize, n: usize) {
 }
 
 // -----------------------------------------------------------------------------------------------
+// Part "deep": no stack exhaustion.  The other parts run on a 256 MiB stack (their business is panics
+// and loops); here every run gets its own thread with a 1 MiB stack, so nesting / operator chains far
+// deeper than such a stack could hold must be carried by the stack-growth guard.  A stack overflow
+// kills the child process; the parent names the case from the progress marker.
+
+type ED<'s> = extra::Err<Rich<'s, char>>;
+type DeepP<'s> = Boxed<'s, 's, &'s str, usize, ED<'s>>;
+const DEEP_STACK: usize = 1 << 20;
+
+/// (name, parser, input of nesting / chain depth n, expected output)
+fn deep_family<'s>(family: usize, n: usize) -> (&'static str, DeepP<'s>, String, usize) {
+    use chumsky::pratt::{infix, left, postfix, prefix, right};
+    let x = || just::<_, &str, ED>('x').to(0usize);
+    let parens = || recursive(|t| just::<_, &str, ED>('(').ignore_then(t).then_ignore(just(')')).map(|d: usize| d + 1).or(just('x').to(0usize)));
+    match family {
+        0 => ("pratt prefix chain: x.pratt((prefix(1,'-'),)) on ---…x", x().pratt((prefix(1, just('-'), |_, d: usize, _| d + 1),)).boxed(), "-".repeat(n) + "x", n),
+        1 => ("pratt right-associative infix chain: x^x^…^x", x().pratt((infix(right(1), just('^'), |a: usize, _, b: usize, _| a.max(b) + 1),)).boxed(), "x^".repeat(n) + "x", n),
+        2 => ("pratt left-associative infix chain: x+x+…+x", x().pratt((infix(left(1), just('+'), |a: usize, _, _b: usize, _| a + 1),)).boxed(), "x+".repeat(n) + "x", n),
+        3 => ("pratt postfix chain: x!!!…", x().pratt((postfix(1, just('!'), |a: usize, _, _| a + 1),)).boxed(), "x".to_string() + &"!".repeat(n), n),
+        4 => ("recursive(): ((…x…))", parens().boxed(), "(".repeat(n) + "x" + &")".repeat(n), n),
+        5 => (
+            "Recursive::declare/define: ((…x…))",
+            {
+                let mut t = Recursive::declare();
+                t.define(just::<_, &str, ED>('(').ignore_then(t.clone()).then_ignore(just(')')).map(|d: usize| d + 1).or(just('x').to(0usize)));
+                t.boxed()
+            },
+            "(".repeat(n) + "x" + &")".repeat(n),
+            n,
+        ),
+        6 => ("two prefix operators of different power alternating: !-!-…x", x().pratt((prefix(2, just('!'), |_, d: usize, _| d + 1), prefix(1, just('-'), |_, d: usize, _| d + 1))).boxed(), "!-".repeat(n / 2) + "x", (n / 2) * 2),
+        7 => (
+            "recursive list: [[…[x,x]…]] through separated_by",
+            recursive(|t| t.separated_by(just(',')).collect::<Vec<usize>>().delimited_by(just('['), just(']')).map(|v: Vec<usize>| v.into_iter().max().unwrap_or(0) + 1).or(just('x').to(0usize))).boxed(),
+            "[".repeat(n) + "x,x" + &"]".repeat(n),
+            n,
+        ),
+        8 => (
+            "mutual recursion through boxed(): a = '(' b ')' | x ; b = a.boxed()",
+            {
+                let mut a = Recursive::declare();
+                let mut b = Recursive::declare();
+                a.define(just::<_, &str, ED>('(').ignore_then(b.clone()).then_ignore(just(')')).map(|d: usize| d + 1).or(just('x').to(0usize)));
+                b.define(a.clone().boxed());
+                a.boxed()
+            },
+            "(".repeat(n) + "x" + &")".repeat(n),
+            n,
+        ),
+        9 => ("pratt whose atom is recursive parentheses around the expression: ((x+x)+x)…", recursive(|e| just::<_, &str, ED>('(').ignore_then(e).then_ignore(just(')')).map(|d: usize| d + 1).or(just('x').to(0usize)).pratt((infix(left(1), just('+'), |a: usize, _, b: usize, _| a.max(b)),))).boxed(), "(".repeat(n) + "x+x" + &")".repeat(n), n),
+        10 => ("right-associative infix chain whose operands carry a prefix operator: -x^-x^…", x().pratt((prefix(3, just('-'), |_, d: usize, _| d), infix(right(1), just('^'), |a: usize, _, b: usize, _| a.max(b) + 1))).boxed(), "-x^".repeat(n) + "-x", n),
+        _ => ("recursive() in a foldr chain: a a a … x", recursive(|t| just::<_, &str, ED>('a').ignore_then(t).map(|d: usize| d + 1).or(just('x').to(0usize))).boxed(), "a".repeat(n) + "x", n),
+    }
+}
+const N_DEEP: usize = 12;
+
+fn unit_deep(acc: &mut Acc, family: usize, n: usize) {
+    for mode in ["parse", "check", "ignored().parse", "to_slice().check"] {
+        let (name, _, _, _) = deep_family(family, 1);
+        set_grammar(format!("deep: {} ({}, on a thread with a {} KiB stack)", name, mode, DEEP_STACK >> 10));
+        set_input(&format!("<depth {}>", n));
+        let h = std::thread::Builder::new()
+            .stack_size(DEEP_STACK)
+            .spawn(move || {
+                let (_, _, input, want) = deep_family(family, n);
+                let (_, p, _, _) = deep_family(family, 1);
+                let r = guarded(|| match mode {
+                    "parse" => {
+                        let r = p.parse(input.as_str());
+                        let ne = r.errors().len();
+                        (r.has_output(), ne, r.output().copied())
+                    }
+                    "check" => {
+                        let r = p.check(input.as_str());
+                        let ne = r.errors().len();
+                        (r.has_output(), ne, None)
+                    }
+                    "ignored().parse" => {
+                        let q = p.clone().ignored();
+                        let r = q.parse(input.as_str());
+                        let ne = r.errors().len();
+                        (r.has_output(), ne, None)
+                    }
+                    _ => {
+                        let q = p.clone().to_slice();
+                        let r = q.check(input.as_str());
+                        let ne = r.errors().len();
+                        (r.has_output(), ne, None)
+                    }
+                });
+                // parsers hold Rc cycles (declare/define): dropped here on the small stack as well
+                (r, want)
+            })
+            .unwrap();
+        acc.evaluations += 1;
+        acc.count("deep_runs", 1);
+        acc.nontrivial_enum += 1;
+        acc.maxc("max_depth_survived_on_a_1MiB_stack", n as u64);
+        match h.join() {
+            Ok((Ok((has, nerr, out)), want)) => {
+                if !has || nerr != 0 || out.map(|o| o != want).unwrap_or(false) {
+                    acc.viol(Viol { weight: 400, what: format!("C20: [{}] ({}) on a well-formed input of depth {}: has_output={} errors={} output={:?} (expected depth {})", name, mode, n, has, nerr, out, want), detail: json!({"grammar_text": name, "input": format!("<depth {}>", n), "part": "deep", "mode": mode}) });
+                }
+            }
+            Ok((Err(e), _)) => acc.viol(Viol { weight: 400, what: format!("C20: [{}] ({}) at depth {}: {}", name, mode, n, e), detail: json!({"grammar_text": name, "input": format!("<depth {}>", n), "part": "deep", "mode": mode, "panic": e}) }),
+            Err(_) => acc.viol(Viol { weight: 400, what: format!("C20: [{}] ({}) at depth {}: the parsing thread panicked outside the guard", name, mode, n), detail: json!({"grammar_text": name, "input": format!("<depth {}>", n), "part": "deep", "mode": mode}) }),
+        }
+    }
+}
+
+// -----------------------------------------------------------------------------------------------
 // Child entry: `cvh child c20 <shard> <nshards> <tier> <seed> [from_part from_idx trace]`
 
-const PARTS: [&str; 4] = ["sat", "rand", "text", "scale"];
+const PARTS: [&str; 5] = ["sat", "rand", "text", "scale", "deep"];
 
 struct Plan {
     sat_grammars: Vec<G>,
@@ -888,6 +999,7 @@ struct Plan {
     n_rand: usize,
     n_text: usize,
     scale_n: usize,
+    deep_n: usize,
     stacked_every: usize,
 }
 
@@ -896,7 +1008,7 @@ fn plan(thorough: bool) -> Plan {
     let sat_grammars = b.up_to(if thorough { 4 } else { 3 });
     let alpha = ['a', 'b', 'é'];
     let sat_inputs = all_inputs(&alpha, if thorough { 4 } else { 3 }).iter().map(|w| Buf::new(w)).collect();
-    Plan { sat_grammars, sat_inputs, n_rand: if thorough { 2_000_000 } else { 320_000 }, n_text: if thorough { 120_000 } else { 20_000 }, scale_n: if thorough { 1 << 20 } else { 1 << 17 }, stacked_every: if thorough { 4 } else { 16 } }
+    Plan { sat_grammars, sat_inputs, n_rand: if thorough { 2_000_000 } else { 320_000 }, n_text: if thorough { 120_000 } else { 20_000 }, scale_n: if thorough { 1 << 20 } else { 1 << 17 }, deep_n: if thorough { 1_000_000 } else { 250_000 }, stacked_every: if thorough { 4 } else { 16 } }
 }
 
 fn n_units(pl: &Plan, part: usize) -> usize {
@@ -904,7 +1016,8 @@ fn n_units(pl: &Plan, part: usize) -> usize {
         0 => pl.sat_grammars.len(),
         1 => pl.n_rand,
         2 => pl.n_text,
-        _ => scale_families().len(),
+        3 => scale_families().len(),
+        _ => N_DEEP,
     }
 }
 
@@ -940,7 +1053,8 @@ pub fn child(args: &[String]) -> i32 {
                             0 => unit_sat(&mut acc, &pl.sat_grammars[i], &pl.sat_inputs, i % pl.stacked_every == 0),
                             1 => unit_rand(&mut acc, &rb, seed, i),
                             2 => unit_text(&mut acc, seed, i),
-                            _ => unit_scale(&mut acc, i, pl.scale_n),
+                            3 => unit_scale(&mut acc, i, pl.scale_n),
+                            _ => unit_deep(&mut acc, i, pl.deep_n),
                         }
                         if trace && acc.viols.len() > 0 {
                             break;
@@ -1054,12 +1168,13 @@ pub fn run(cx: &RunCtx) -> i32 {
         acc,
         Finish {
             rule: format!(
-                "all work in {nshards} child processes. (sat) every grammar with <= {} nodes of the C01/C02 class (plus a failing custom leaf) and, for every node of it, the node wrapped in map_err / labelled / labelled.as_context / memoized / recover_with(via_parser(empty|any|failing), skip_until, skip_then_retry_until, nested_delimiters) and selected pairs of wrappers, x every input <= {} over {{a,b,é}} x error types EmptyErr (the zero-sized default), Rich, Cheap, Simple x parse and check; (rand) {} random grammars of 3..14 nodes of the broadest class (recovery, validation, labels, memoization, Ext, state, context, nested inputs) with random wrappers, on arbitrary-Unicode inputs (NUL, combining marks, ZWJ, astral, noncharacters) and every prefix of one input, on &str and in turn &[char] / Stream / mapped token inputs; (text) {} batches of 12 arbitrary-Unicode strings + 8 arbitrary byte strings + all byte prefixes of a UTF-8 string through 14 statically typed text grammars on &str (ident, int, digits, keyword, whitespace, newline, regex, multi-byte just, filter, string literals with skip_until recovery, a recursive bracket tree with nested_delimiters and skip_then_retry_until recovery, memoized/labelled/map_err stacks), 7 on &[u8], 2 on Graphemes, with Rich and EmptyErr (every 4th batch also Cheap and Simple); (scale) 9 families at n/4, n/2, n = {} bytes. Per run: no panic (caught per case), no more than 10^7 logical steps (inspector: next/save/rewind) unless the reference model is itself over budget, no output => >= 1 error, ParseResult accessor contract, every error span and every returned slice inside the input, on character boundaries and equal to input[span]; per child: exit status / signal, CPU-time hang monitor per case (25 CPU-s), wall-clock watchdog (inconclusive); scale: steps at most x2.3 when the input doubles. Non-trivial: runs that reject their input",
+                "all work in {nshards} child processes. (sat) every grammar with <= {} nodes of the C01/C02 class (plus a failing custom leaf) and, for every node of it, the node wrapped in map_err / labelled / labelled.as_context / memoized / recover_with(via_parser(empty|any|failing), skip_until, skip_then_retry_until, nested_delimiters) and selected pairs of wrappers, x every input <= {} over {{a,b,é}} x error types EmptyErr (the zero-sized default), Rich, Cheap, Simple x parse and check; (rand) {} random grammars of 3..14 nodes of the broadest class (recovery, validation, labels, memoization, Ext, state, context, nested inputs) with random wrappers, on arbitrary-Unicode inputs (NUL, combining marks, ZWJ, astral, noncharacters) and every prefix of one input, on &str and in turn &[char] / Stream / mapped token inputs; (text) {} batches of 12 arbitrary-Unicode strings + 8 arbitrary byte strings + all byte prefixes of a UTF-8 string through 14 statically typed text grammars on &str (ident, int, digits, keyword, whitespace, newline, regex, multi-byte just, filter, string literals with skip_until recovery, a recursive bracket tree with nested_delimiters and skip_then_retry_until recovery, memoized/labelled/map_err stacks), 7 on &[u8], 2 on Graphemes, with Rich and EmptyErr (every 4th batch also Cheap and Simple); (scale) 9 families at n/4, n/2, n = {} bytes; (deep) 12 families of well-formed inputs nested / chained {} levels deep (Pratt prefix, right- and left-associative infix, postfix and mixed chains, recursive() and declare/define parentheses, recursive lists, mutual recursion through boxed(), Pratt over a recursive atom) each on its own thread with a 1 MiB stack, in parse, check, ignored() and to_slice() form: must return the expected output (a stack overflow kills the child and is reported with the case). Per run: no panic (caught per case), no more than 10^7 logical steps (inspector: next/save/rewind) unless the reference model is itself over budget, no output => >= 1 error, ParseResult accessor contract, every error span and every returned slice inside the input, on character boundaries and equal to input[span]; per child: exit status / signal, CPU-time hang monitor per case (25 CPU-s), wall-clock watchdog (inconclusive); scale: steps at most x2.3 when the input doubles. Non-trivial: runs that reject their input",
                 if cx.thorough() { 4 } else { 3 },
                 if cx.thorough() { 4 } else { 3 },
                 pl.n_rand,
                 pl.n_text,
-                pl.scale_n
+                pl.scale_n,
+                pl.deep_n
             ),
             exhaustive: false,
             exhaustive_note: "saturation part: complete below the stated bounds".into(),
@@ -1080,6 +1195,7 @@ pub fn run(cx: &RunCtx) -> i32 {
                 ("grapheme_cases".into(), 1000),
                 ("slices_checked_against_input".into(), 10_000),
                 ("scaling_runs".into(), 20),
+                ("deep_runs".into(), 40),
                 ("child_processes".into(), 1),
             ],
             min_evaluations: 100_000,
